@@ -99,8 +99,25 @@ def _front(a):
     else:
         kind = ("unknown", repr(ir))
     state = field(p, I, st, ma, "state")
-    return a, {"ir": kind, "state": sorted(state.vs) if isinstance(state, En) else None,
-               "bad": [repr(e) for e in bad[:5]]}
+    res = {"ir": kind, "state": sorted(state.vs) if isinstance(state, En) else None,
+           "bad": [repr(e) for e in bad[:5]]}
+    res["writes"] = sorted(written_fields(p, I))
+    res["iff"] = field(p, I, st, ma, "pending_edge_interrupt")
+    if kind[0] == "load":
+        # which loaded bytes halt the machine?  (abstract runs with the byte class pinned;
+        # the pending register commit is disabled so that only the IR-load stage can halt)
+        halts = {}
+        names = [v["n"] for v in p.need_type(STATE)["variants"]]
+        for label, lbr in (("0x00", 0), ("0x01", 1), ("other", frozenset(range(2, 256)))):
+            ov2 = machine_overrides(p, a, "Running", False, Opaque("IR"), lbr,
+                                    extra={"pending_register_write": En({0: ()})})
+            st2, ma2, _ = run_edge(p, I, ov2)
+            s2 = field(p, I, st2, ma2, "state")
+            ir2 = field(p, I, st2, ma2, "instruction_register.content.bits")
+            halts[label] = {"state": sorted(names[vi] for vi in s2.vs) if isinstance(s2, En) else None,
+                            "ir": ir2 if isinstance(ir2, int) else (sorted(ir2) if isinstance(ir2, frozenset) else repr(ir2))}
+        res["halts"] = halts
+    return a, res
 
 
 def _back(a):
